@@ -264,8 +264,8 @@ def fc_branch_net_maps_function_b_to_feature_block_b(S):
 
 @scenario("C09", [DON + "._forward_branch", BRANCH + "._discretize_function_set"], configs=["two-function-sets-one-network"], bounded="trunk variable x:1, input functions f:1; numbers of functions / discretisation points symbolic; a history of four calls")
 def branch_is_re_evaluated_for_the_function_set_it_is_asked_for(S):
-    """history on ONE DeepONet: _forward_branch(A, it=0), (B, 0), (B, 0), (B, 1).  The branch features always belong to
-    the function set of the LAST request: A's request evaluates the branch on A's functions, B's first request in the
+    """history on ONE DeepONet: _forward_branch(A, it=0), (B, 0), (B, 0), (A, 0), (B, 1), then a second network sharing
+    B.  The branch features always belong to the function set of the LAST request: A's request evaluates the branch on A's functions, B's first request in the
     same iteration evaluates it on B's functions (not reusing A's), a repeated request for B in the same iteration
     reuses them (no resampling), and the next iteration resamples B's functions and evaluates again."""
     from tpv.absdom import abstract_domain
@@ -300,5 +300,24 @@ def branch_is_re_evaluated_for_the_function_set_it_is_asked_for(S):
             S.forall("second-evaluation-is-on-the-functions-of-B", Tensor(Dm), lambda qq: zreal(Dm.at(qq)) == fB.value_terms([zreal(Kp.at([qq[0], ()])), zreal(P.at([qq[1], ()]))])[0])
     S.method(net, "_forward_branch", setB, 0)
     S.ensure("repeated-request-in-the-same-iteration-reuses-the-features", len(seen) == 2 and len(pb.calls) == 1)
+    # back to A in the SAME iteration: A's functions are not resampled, but the features in the branch are B's now
+    S.method(net, "_forward_branch", setA, 0)
+    S.ensure("request-for-A-after-B-re-evaluates-the-branch-without-resampling-A", len(seen) == 3 and len(pa.calls) == 1)
+    if len(seen) == 3:
+        Dm = tensor_of(seen[2])
+        P = disc.calls[-1]["tensor"].val
+        Kp = pa.calls[-1]["tensor"].val
+        okd = Dm.rank == 3 and Dm.shape[2].concrete() == 1
+        S.ensure("third-evaluation-has-one-row-per-function-of-A", okd and Dm.shape[0].size_term() == zint(KA))
+        if okd:
+            S.forall("third-evaluation-is-on-the-functions-of-A", Tensor(Dm), lambda qq: zreal(Dm.at(qq)) == fA.value_terms([zreal(Kp.at([qq[0], ()])), zreal(P.at([qq[1], ()]))])[0])
     S.method(net, "_forward_branch", setB, 1)
-    S.ensure("next-iteration-resamples-and-evaluates-again", len(seen) == 3 and len(pb.calls) == 2)
+    S.ensure("next-iteration-resamples-and-evaluates-again", len(seen) == 4 and len(pb.calls) == 2)
+    # a second network that shares function set B and is asked in the same iteration: its OWN branch is evaluated
+    trunk2, _u2, _T2, _B2 = abstract_trunk_branch(S, KB, S.int("n2", 1), d, q, True)
+    branch2 = S.new(BRANCH, fsp, disc.obj)
+    seen2 = []
+    branch2.f["__overrides__"] = {"forward": lambda I2, o, batch: seen2.append(batch), "__call__": lambda I2, o, batch: seen2.append(batch)}
+    net2 = S.new(DON, trunk2, branch2, S.new(RN, "u", d), Sym(zint(q) * d, "int"))
+    S.method(net2, "_forward_branch", setB, 1)
+    S.ensure("second-network-sharing-the-function-set-evaluates-its-own-branch-without-resampling", len(seen2) == 1 and len(pb.calls) == 2 and len(seen) == 4)
